@@ -266,12 +266,14 @@ func init() {
 		Spaces: func(tier string) []*core.Space {
 			_, structure, _ := scopeAlphabets()
 			if tier == "thorough" {
-				return []*core.Space{c14Space(scopeSpaceDef{"structure<=3", structure, 1, 3, otherVariants[:1], 1, false}),
-					c14Space(scopeSpaceDef{"structure<=2-on-one-line", structure, 1, 2, otherVariants[:1], 1, true}), c14PrefixSpace()}
+				return []*core.Space{c14Space(scopeSpaceDef{"structure<=3", structure, 1, 3, otherVariants[:1], 1, false, nil}),
+					c14Space(scopeSpaceDef{"structure<=3-on-one-line", structure, 1, 3, otherVariants[:1], 1, true, nil}),
+					c14Space(scopeSpaceDef{name: "sibling-blocks-on-one-line", others: otherVariants[:1], fixed: siblingBlockPrograms()}), c14PrefixSpace()}
 			}
-			return []*core.Space{c14Space(scopeSpaceDef{"structure<=2", structure, 1, 2, otherVariants[:1], 1, false}),
-				c14Space(scopeSpaceDef{"structure-3nodes-first-60000", structure, 3, 3, otherVariants[:1], 60000, false}),
-				c14Space(scopeSpaceDef{"structure<=2-on-one-line", structure, 1, 2, otherVariants[:1], 1, true}), c14PrefixSpace()}
+			return []*core.Space{c14Space(scopeSpaceDef{"structure<=2", structure, 1, 2, otherVariants[:1], 1, false, nil}),
+				c14Space(scopeSpaceDef{"structure-3nodes-first-60000", structure, 3, 3, otherVariants[:1], 60000, false, nil}),
+				c14Space(scopeSpaceDef{"structure<=2-on-one-line", structure, 1, 2, otherVariants[:1], 1, true, nil}),
+				c14Space(scopeSpaceDef{name: "sibling-blocks-on-one-line", others: otherVariants[:1], fixed: siblingBlockPrograms()}), c14PrefixSpace()}
 		},
 	})
 }
